@@ -87,11 +87,11 @@ NuclideSource(cat) ==
                         /\ Len(s.lines) = r.nx /\ (\A k \in 1..r.nx : s.lines[k] \in DOMAIN LineMacro /\ r.lines[k] = LineVal(s.lines[k]) /\ SameDec(r.xi[k], s.xi[k], F("1e-15")))
                         /\ Len(s.ge) = r.ng /\ (\A k \in 1..r.ng : SameDec(r.ge[k], s.ge[k], F("1e-15")) /\ SameDec(r.gi[k], s.gi[k], F("1e-15"))),
                         "entry " \o ToString(i - 1) \o " differs from the source table") : i \in 1..(IF Len(src.entries) < cat.n THEN Len(src.entries) ELSE cat.n) }
-\* the generator prints crystal data through "%f" into float literals: 6 decimals, single precision
+\* the generator prints crystal data with every digit into float literals: the built-in value is the nearest single-precision number
 CrystalSource(cat) ==
   LET src == CatFacts.crystal
       byName(nm) == { k \in 1..Len(cat.byname) : cat.byname[k].exact /\ cat.byname[k].q = nm }
-      close(v, tok) == FClose(v, F(tok), F("2e-7"), F("1e-6"))
+      close(v, tok) == FEq(v, FRound32(F(tok)))
   IN Complain(Len(src) = cat.n, "count differs from data/Crystals.dat")
      \cup UNION { LET s == src[i] IN
                   Complain(byName(s.name) # {} /\
